@@ -42,7 +42,15 @@ _MAIN = """package P
     Real s;
     Real dx;
     Real g[2];
+    Real f0;
+    Real f1;
+    Real fz;
+    Real fh;
   equation
+    f0 = 0;
+    f1 = 1;
+    f0 = fz - fh;
+    fh = f1;
     der(x) = -p * x + c + a_aux + b_aux%(extra)s;
     a = x;
     z = 3 * C0.k + 5 * C1.k + 7 * C2.k + 11 * C3.k;
@@ -111,7 +119,12 @@ for _s in SWITCH_OFF:
 OPTIONS["aliases_no_der"] = {"detect_aliases": True, "allow_derivative_aliases": False}
 OPTIONS["elim_a"] = {"eliminable_variable_expression": "a_.*", "expand_mx": True}
 OPTIONS["elim_b"] = {"eliminable_variable_expression": "b_.*", "expand_mx": True}
-QUICK_OPTIONS = ["plain", "detect_aliases", "replace_constant_values", "elim_a", "elim_b"]
+# iterative_simplification is honoured by Model.simplify but is not in the table of default options: "simp" and
+# "simp_iter" differ in that key only, and the chain f0 = 0; f1 = 1; f0 = fz - fh; fh = f1 is reduced further by iterating
+_SIMP = {"detect_aliases": True, "eliminate_constant_assignments": True, "replace_constant_values": True, "replace_constant_expressions": True, "factor_and_simplify_equations": True}
+OPTIONS["simp"] = dict(_SIMP)
+OPTIONS["simp_iter"] = dict(_SIMP, iterative_simplification=True)
+QUICK_OPTIONS = ["plain", "simp", "simp_iter", "elim_a", "elim_b"]
 # An exploration profile = an alphabet + a bound.  The quick tier is the profile "base"; the thorough tier runs
 # "base" one event deeper (and with process restarts) and then widens one dimension at a time over it.
 #   files: which of the three existing files are rewritten; touch: also with their present content;
@@ -169,7 +182,8 @@ class World:
     def __init__(self):
         self.root = common.new_scratch("c20")
         self.mdir = os.path.join(self.root, "model")
-        self.ldirs = [os.path.join(self.root, "lib"), os.path.join(self.root, "lib2")]
+        # the model folder's path is a string prefix of the library folders' paths (and one library's of the other's)
+        self.ldirs = [os.path.join(self.root, "model_lib"), os.path.join(self.root, "model_lib2")]
         self.tick = 0
         self.main, self.lib, self.part = "A", "A", "A"
         self.extras = frozenset()
